@@ -404,6 +404,11 @@ class EffectDomain(DefaultDomain):
             if ok:
                 hit = k in dict(right[1])
                 return "T" if hit == isinstance(op, ast.In) else "F"
+        if isinstance(op, (ast.Is, ast.IsNot)) and left != right and TOP not in (left, right) and any(
+                isinstance(v, tuple) and v[:1] == ("sym",) and isinstance(v[1], str) and v[1].startswith("<module sentinel") for v in (left, right)) and all(
+                isinstance(v, tuple) and v and v[0] in self.IDENTITY_TAGS + ("const", "tuple", "kwdict", "set") or v in (NONE, TRUE, FALSE) for v in (left, right)):
+            # a module-level `object()` sentinel is identical to nothing but itself
+            return "F" if isinstance(op, ast.Is) else "T"
         if isinstance(op, (ast.Is, ast.IsNot)) and all(isinstance(v, tuple) and v and v[0] in self.IDENTITY_TAGS for v in (left, right)):
             # distinct symbolic objects are distinct objects
             return "T" if (left == right) == isinstance(op, ast.Is) else "F"
@@ -560,6 +565,29 @@ class EffectDomain(DefaultDomain):
             return None
         key = interp._key_of(f.value, fr, st)
         cur = st.get(key, None) if key is not None else None
+        if cur is None and f.attr in ("get", "items", "keys", "values", "copy") and isinstance(f.value, ast.Name) and not st.has(fr.local(f.value.id)):
+            # a table that is not a variable of this run (a module-level dict literal ...): it can be read
+            got = interp.eval(f.value, st, fr)
+            if len(got) == 1 and got[0].kind == "val" and isinstance(got[0].value, tuple) and got[0].value[:1] == ("kwdict",):
+                table = got[0].value
+                out = []
+                for r in interp.eval_list(list(call.args), st, fr):
+                    if r.kind == "exc":
+                        out.append(r)
+                        continue
+                    a = r.value
+                    if f.attr == "get":
+                        ok_, name = self._dkey(a[0]) if a else (False, None)
+                        out.append(val(dict(table[1]).get(name, a[1] if len(a) > 1 else NONE) if ok_ else TOP, r.state))
+                    elif f.attr == "items":
+                        out.append(val(("kwitems", table[1]), r.state))
+                    elif f.attr == "keys":
+                        out.append(val(("tuple",) + tuple(self._dkey_abs(k) for k, _ in table[1]), r.state))
+                    elif f.attr == "values":
+                        out.append(val(("tuple",) + tuple(v for _, v in table[1]), r.state))
+                    else:
+                        out.append(val(table, r.state))
+                return out
         if not (isinstance(cur, tuple) and cur[:1] == ("kwdict",)) or f.attr not in ("get", "pop", "popitem", "clear", "setdefault", "items", "keys", "values", "copy", "update"):
             return None
         out = []
@@ -1270,6 +1298,24 @@ class EffectDomain(DefaultDomain):
                         vals_.append(v)
                 out.append(val(("lazymap", vals_[0], vals_[1]) if len(vals_) == 2 else TOP, r.state))
             return out
+        if d in ("sum", "min", "max") and len(call.args) == 1 and not call.keywords and not st.has(fr.local(d)):
+            out = []
+            known = True
+            for r in interp._forced(interp.eval(call.args[0], st, fr), fr):
+                if r.kind == "exc":
+                    out.append(r)
+                    continue
+                els = interp._exact_elements(unbox_deep(r.value, r.state))
+                pys = [self._py(x) for x in els] if els is not None else None
+                if pys is None or not all(ok for ok, _ in pys):
+                    known = False
+                    break
+                try:
+                    out.append(val(self._abs({"sum": sum, "min": min, "max": max}[d]([x for _, x in pys])), r.state))
+                except (TypeError, ValueError) as e_:
+                    out.append(exc(("exc", type(e_).__name__), r.state))
+            if known and out:
+                return out
         if d in ("bytes", "str", "int", "float", "bool", "tuple") and not call.args and not call.keywords and not st.has(fr.local(d)):
             return [val(self._abs({"bytes": b"", "str": "", "int": 0, "float": 0.0, "bool": False, "tuple": ()}[d]) if d != "tuple" else ("tuple",), st)]
         if d == "dict.fromkeys" and 1 <= len(call.args) <= 2 and not call.keywords:
